@@ -1860,3 +1860,16 @@ M("c07-timer-reads-the-sequence-number-as-time", "C07", "R4.timer-heap-layout-ag
   "                    next_resume_time = self._pending_resumes[0][0]", "                    next_resume_time = self._pending_resumes[0][1]")
 M("c07-timer-peeks-at-the-second-entry", "C07", "R4.timer-heap-layout-agrees", "concurrency/executor.py",
   "                    next_resume_time = self._pending_resumes[0][0]", "                    next_resume_time = self._pending_resumes[1][0]")
+M("c06-overflow-drain-loop-inverted", "C06", "R1.handler-drains-and-wakes", "state.py",
+  "                    # overflow 1st: although at this point order not really import any anymore\n                    while not self._overflow_queue.empty():",
+  "                    # overflow 1st: although at this point order not really import any anymore\n                    while self._overflow_queue.empty():")
+
+
+def _negate_suspend_arm_classification(src):
+    i = src.index("            except SuspendExecution:")
+    tok = "isinstance(bg_error.source_exception, CheckpointError)"
+    j = src.index(tok, i)
+    return src[:j] + "not " + tok + src[j + len(tok):]
+
+
+M2("c06-envelope-classification-inverted", "C06", "R5.envelope-opened-by-classification", [{"file": "execution.py", "fn": _negate_suspend_arm_classification}])
